@@ -72,7 +72,7 @@ ResetTo(c) ==
   /\ now' = 0
   /\ out' = <<>>
   /\ gh' = [sess |-> [p \in DOMAIN c |-> "none"], nsess |-> [p \in DOMAIN c |-> 0],
-            released |-> [p \in DOMAIN c |-> {}], ncb |-> [p \in DOMAIN c |-> [n \in CbNames |-> 0]],
+            released |-> [p \in DOMAIN c |-> {}], ncb |-> [p \in DOMAIN c |-> [n \in CbNames \cup PmGateNames |-> 0]],
             bad |-> {}]
   /\ target' = 0
 
@@ -90,7 +90,7 @@ TraceInit ==
   /\ now = 0
   /\ out = <<>>
   /\ gh = [sess |-> [p \in DOMAIN cfg |-> "none"], nsess |-> [p \in DOMAIN cfg |-> 0],
-           released |-> [p \in DOMAIN cfg |-> {}], ncb |-> [p \in DOMAIN cfg |-> [n \in CbNames |-> 0]],
+           released |-> [p \in DOMAIN cfg |-> {}], ncb |-> [p \in DOMAIN cfg |-> [n \in CbNames \cup PmGateNames |-> 0]],
            bad |-> {}]
   /\ target = 0
 
